@@ -360,11 +360,14 @@ ExprRoundTrip(v, t) == PiecesReadBack(PrintExpr(v, t), t)
 \* ... and without the allowance
 ExprRoundTripExact(v, t) == ReadExpr(PrintExpr(v, t)) = View(t)
 
-\* the typed tree that reading the echo gives back when the round trip holds: products and sums
-\* re-associated to the left (everything else unchanged)
-RECURSIVE LeftAssocT(_), LeftRootT(_, _, _), LeftSeqT(_), LeftPartsT(_), LeftFieldsT(_)
-\* (a fused product  2 metre / 2 x  is written by juxtaposition, which binds tighter than ×: it stays one operand)
-LeftRootT(tag, l, r) == IF r[1] = tag /\ ~IsFused(r) THEN LeftRootT(tag, LeftRootT(tag, l, r[2]), r[3]) ELSE <<tag, l, r>>
+\* the typed tree that reading the echo gives back when the round trip holds: a product a × (b × c) is echoed as the
+\* sequence a × b × c of its factors, which is read from the left (likewise sums); everything else is unchanged.
+\* The factors of a product are its operands that are not themselves products echoed with × (a fused product
+\* 2 metre / 2 x  is written by juxtaposition, which binds tighter than ×: it is ONE factor).
+RECURSIVE LeftAssocT(_), Operands(_, _), FoldLeft(_, _, _), LeftSeqT(_), LeftPartsT(_), LeftFieldsT(_)
+Chains(tag, t) == t[1] = tag /\ ~IsFused(t)
+Operands(tag, t) == IF Chains(tag, t) THEN Operands(tag, t[2]) \o Operands(tag, t[3]) ELSE <<LeftAssocT(t)>>
+FoldLeft(tag, acc, rest) == IF rest = << >> THEN acc ELSE FoldLeft(tag, <<tag, acc, Head(rest)>>, Tail(rest))
 LeftSeqT(s) == IF s = << >> THEN << >> ELSE <<LeftAssocT(Head(s))>> \o LeftSeqT(Tail(s))
 LeftPartsT(ps) == IF ps = << >> THEN << >>
                   ELSE <<IF Head(ps)[1] = "ipl" THEN <<"ipl", LeftAssocT(Head(ps)[2]), Head(ps)[3]>> ELSE Head(ps)>> \o LeftPartsT(Tail(ps))
@@ -374,7 +377,8 @@ LeftAssocT(t) ==
     [] t[1] = "str" -> <<"str", LeftPartsT(t[2])>>
     [] t[1] \in {"neg", "not"} -> <<t[1], LeftAssocT(t[2])>>
     [] t[1] = "fact" -> <<"fact", t[2], LeftAssocT(t[3])>>
-    [] t[1] \in {"mul", "add"} -> LeftRootT(t[1], LeftAssocT(t[2]), LeftAssocT(t[3]))
+    [] t[1] \in {"mul", "add"} /\ Chains(t[1], t) -> LET ops == Operands(t[1], t) IN FoldLeft(t[1], Head(ops), Tail(ops))
+    [] t[1] = "mul" /\ IsFused(t) -> t
     [] t[1] \in BinaryTags \ {"mul", "add"} -> <<t[1], LeftAssocT(t[2]), LeftAssocT(t[3])>>
     [] t[1] = "call" -> <<"call", LeftAssocT(t[2]), LeftSeqT(t[3])>>
     [] t[1] = "field" -> <<"field", LeftAssocT(t[2]), t[3]>>
